@@ -432,7 +432,23 @@ impl<'a, 'tcx> Dumper<'a, 'tcx> {
                 let pty = p.ty(&body.local_decls, self.cx.tcx).ty;
                 out.push(',');
                 json::esc(&self.cx.ty(pty), out);
-                out.push(']');
+                out.push_str(",[");
+                if let ty::Adt(adt, _) = pty.kind() {
+                    if adt.is_enum() {
+                        for (i, (vidx, discr)) in adt.discriminants(self.cx.tcx).enumerate() {
+                            if i > 0 {
+                                out.push(',');
+                            }
+                            let name = adt.variant(vidx).name.to_string();
+                            if discr.val > i64::MAX as u128 {
+                                out.push_str(&format!("[\"{}\",{}]", discr.val, json::s(&name)));
+                            } else {
+                                out.push_str(&format!("[{},{}]", discr.val, json::s(&name)));
+                            }
+                        }
+                    }
+                }
+                out.push_str("]]");
             }
             Rvalue::Aggregate(box kind, ops) => {
                 out.push_str("[\"agg\",");
